@@ -279,4 +279,4 @@ PROP = Prop(
     assumptions=["normal quantile reference: statistics.NormalDist (stdlib)"],
 )
 
-RULE_EXTRA = ('long-double matrices beyond the float64 range; floating-point warnings escalated to exceptions (np.errstate(divide, invalid = raise)) in a third of the cases; float cells up to 1e100 (beyond the int64 range); matrices stored as uint8 / int16 / uint16 / int32 with cells up to the dtype maximum (row, column and diagonal sums beyond it) and as float32; alphas down to 1e-300 and up to 1-1e-12 with the reference quantile taken through the lower tail; mirror tolerance scaled by the rounding of 1-p.')
+RULE_EXTRA = ('long-double matrices beyond the float64 range; floating-point warnings escalated to exceptions (np.errstate(divide, invalid = raise)) in a third of the cases; float cells up to 1e100 (beyond the int64 range); matrices stored as uint8 / int16 / uint16 / int32 with cells up to the dtype maximum (row, column and diagonal sums beyond it) and as float32; alphas down to 1e-300 and up to 1-1e-12 with the reference quantile taken through the lower tail; mirror tolerance scaled by the rounding of 1-p. One float stack holding matrices scaled by 2^-600..2^600; interval centre / half-width compared purely relatively.')
